@@ -50,7 +50,8 @@ BOUNDS = (
 )
 OUTSIDE = (
     "the parallel range path and hedging (_fetch_chunks_with_hedging needs a running event loop: asyncio.wait/tasks), the pre-signed Range-probe path, "
-    "decompression caps (codec contract, see C18), real aiohttp/sockets and log records (looked at only when a counterexample is replayed); objects > 16 bytes in the scripted origin; "
+    "the decoded-size cap for gzip / zstd bodies (bounded by the codec itself: codec contract, see C18 — decided here for bodies served without, with an identity or with an "
+    "unknown Content-Encoding), real aiohttp/sockets and log records (looked at only when a counterexample is replayed); objects > 16 bytes in the scripted origin; "
     "how large the client's own read size is (any finite n is 'a bounded chunk'; reading without a limit is not); percent-encoded secrets ('%' excluded: "
     "urllib's unquote goes through `re`); non-ASCII; validators whose message embeds a *transformed* URL; longer parts than stated"
 )
@@ -518,10 +519,19 @@ class _Origin:
             if not self.head_ok:
                 return _OResp(self, method, self.head_status, [], 0)
             hdrs = [] if self.declared is None else [("Content-Length", str(self.declared))]
-            return _OResp(self, method, 200, hdrs, 0)
+            return _OResp(self, method, 200, hdrs + self._enc_header("head_enc"), 0)
         if self.get_status != 200:
             return _OResp(self, method, self.get_status, [], 0)
-        return _OResp(self, method, 200, [], self.delivered)
+        return _OResp(self, method, 200, self._enc_header("get_enc"), self.delivered)
+
+    enc: dict = {}  # Content-Encoding header values (or thunks) of the HEAD answer / the delivering GET answer; '' = no header
+
+    def _enc_header(self, which: str) -> list:
+        v = self.enc.get(which, "")
+        if isinstance(v, _Thunk):
+            v = v.fn()
+            self.enc[which] = v
+        return [("Content-Encoding", v)] if v else []
 
     async def head(self, url: str, *, headers=None, allow_redirects: bool = False, **kw) -> _OResp:  # noqa: ANN001, ANN003
         if allow_redirects:
@@ -543,10 +553,12 @@ class _Cfg:
     """FetchConfig stand-in: the attributes the probe / single-GET path reads."""
 
     parallel_threshold_bytes = 1 << 40  # the parallel range path needs an event loop: kept out of reach
-    max_decompressed_bytes = None
+    def __init__(self, max_fetch_bytes, max_redirects, max_decompressed_bytes=None) -> None:  # noqa: ANN001  (values or thunks)
+        self._max_fetch_bytes, self._max_redirects, self._max_decompressed_bytes = max_fetch_bytes, max_redirects, max_decompressed_bytes
 
-    def __init__(self, max_fetch_bytes, max_redirects) -> None:  # noqa: ANN001  (values or thunks)
-        self._max_fetch_bytes, self._max_redirects = max_fetch_bytes, max_redirects
+    @property
+    def max_decompressed_bytes(self):  # noqa: ANN201  (None = the documented default of 16 * max_fetch_bytes)
+        return _force(self, "_max_decompressed_bytes")
 
     @property
     def max_fetch_bytes(self) -> int:
@@ -595,7 +607,8 @@ def _fetch_scenario(a: dict):  # noqa: ANN201
     lz = a.lazy if isinstance(a, _Scenario) else (lambda key: a.get(key))
     origin = _Origin(a["head_ok"], a["declared"] if a["has_cl"] else None, a["delivered"], a["chunk"], a["head_hops"], a["get_hops"],
                      lz("cap"), lz("head_status") if "head_status" in a else 405, lz("get_status") if "get_status" in a else 200)
-    cfg = _Cfg(lz("cap"), lz("max_redirects"))
+    origin.enc = {"head_enc": lz("head_enc") if "head_enc" in a else "", "get_enc": lz("get_enc") if "get_enc" in a else ""}
+    cfg = _Cfg(lz("cap"), lz("max_redirects"), lz("mdb") if "mdb" in a else None)
     bad = a["bad_hop"]
 
     def validator(url: str) -> None:
@@ -641,6 +654,11 @@ def _fetch_verdict(a: dict) -> str | None:
             return f"returned {len(data)} bytes, the object has {a['delivered']}"
         if a["delivered"] > a["cap"]:
             return f"returned an object of {a['delivered']} bytes with max_fetch_bytes={a['cap']}"
+        # the decoded-size cap binds whatever the origin calls the body's encoding (none, identity, a token the
+        # client does not know): what is handed back IS the decoded body.  (None = 16 * max_fetch_bytes by the
+        # FetchConfig contract, which the previous clause already implies.)
+        if a.get("mdb") is not None and len(data) > a["mdb"]:
+            return f"returned {len(data)} decoded bytes with max_decompressed_bytes={a['mdb']}"
     return None
 
 
@@ -694,6 +712,8 @@ def _real_origin(a: dict, body: bytes):  # noqa: ANN201
             self.send_response(200)
             if declared is not None:
                 self.send_header("Content-Length", str(declared))
+            if a.get("head_enc"):
+                self.send_header("Content-Encoding", a["head_enc"])
             self.end_headers()
 
         def do_GET(self) -> None:  # noqa: N802
@@ -706,6 +726,8 @@ def _real_origin(a: dict, body: bytes):  # noqa: ANN201
                 return
             self.send_response(200)
             self.send_header("Transfer-Encoding", "chunked")
+            if a.get("get_enc"):
+                self.send_header("Content-Encoding", a["get_enc"])
             self.end_headers()
             piece = max(1, min(a["piece"], 256 * 1024))
             try:
@@ -758,7 +780,7 @@ def _real_fetch(a: dict, body: bytes, cap: int):  # noqa: ANN201
         if bad >= 0 and hop == bad:
             raise ValueError("target not allowed: " + url if a.get("embeds") else "target not allowed")
 
-    cfg = xf.FetchConfig(max_fetch_bytes=cap, max_redirects=a["max_redirects"], timeout_seconds=30.0)
+    cfg = xf.FetchConfig(max_fetch_bytes=cap, max_redirects=a["max_redirects"], timeout_seconds=30.0, max_decompressed_bytes=a.get("mdb"))
     data = err = None
     try:
         try:
@@ -788,6 +810,10 @@ def _real_facts(a: dict, data, err, log: list, records: list, body: bytes, cap: 
             return f"fetch_url returned {len(data)} bytes that are not the object's {len(body)} bytes"
         if len(body) > cap:
             return f"fetch_url returned an object of {len(body)} bytes with max_fetch_bytes={cap}"
+        if a.get("mdb") is not None and len(data) > a["mdb"]:
+            enc = a.get("get_enc") or a.get("head_enc") or ""
+            return (f"fetch_url returned {len(data)} decoded bytes with max_decompressed_bytes={a['mdb']} "
+                    f"(body served {'with Content-Encoding: ' + enc if enc else 'without a Content-Encoding'})")
     texts = ([("error " + type(err).__name__, str(err)), ("error repr", repr(err))] if err is not None else []) + [("log record", r) for r in records]
     for where, text in texts:
         for secret in _URL_SECRETS:
@@ -803,6 +829,9 @@ def _replay_fetch(a: dict) -> str | None:
     Run 2 — only when the origin delivers more than max_fetch_bytes — is the same scenario with the sizes scaled up
     (same order between declared / cap / delivered) so that 'kept reading' is measurable through socket buffers:
     the origin over-delivers by 48 MiB and counts what the client let it write."""
+    if "get_enc_i" in a:  # arguments of decoded_cap_binds_whatever_the_encoding_is_called
+        a = {**a, "get_enc": _ENCS[a["get_enc_i"]], "head_enc": _ENCS[a["head_enc_i"]], "mdb": a["mdb"] if a["has_mdb"] else None,
+             "declared": a["delivered"], "chunk": _BMAX}
     if "head_status_i" in a:  # arguments of status_and_size_errors_never_name_url_secrets
         a = {**a, "head_status": _STATUSES[1 + a["head_status_i"]], "get_status": _STATUSES[a["get_status_i"]], "cap": 1 if a["over_cap"] else 8}
     a = {**_REAL_DEFAULTS, **a}
@@ -815,7 +844,7 @@ def _replay_fetch(a: dict) -> str | None:
         return None
     unit = 64 * 1024
     cap2 = a["cap"] * unit
-    big = {**a, "declared": (a["declared"] * unit if a["declared"] <= a["cap"] else cap2 + _REAL_OVER), "piece": 256 * 1024}
+    big = {**a, "declared": (a["declared"] * unit if a["declared"] <= a["cap"] else cap2 + _REAL_OVER), "piece": 256 * 1024, "mdb": None}
     body2 = bytes(cap2 + _REAL_OVER)
     data, err, log, sent, records = _real_fetch(big, body2, cap2)
     why = _real_facts(big, data, err, log, records, body2, cap2)
@@ -861,6 +890,33 @@ def redirects_are_bounded_and_validated(head_ok: bool, head_hops: int, get_hops:
 
 # 2xx | refused-but-GET-may-work (like 405, 501) | [client error] | server error
 _STATUSES = pick((200, 403, 500), (200, 403, 404, 500))
+
+
+# Content-Encoding values that leave the body as it is: no header, identity (plain / with parameters), a token the client does not know
+_ENCS = ("", "br", "identity", "IDENTITY;q=1.0")
+_N_HEAD_ENCS = pick(2, 4)  # the probe's Content-Encoding is only a fallback for the delivering answer's: quick = none | unknown token
+_DMAX = pick(3, 6)  # sizes of the decoded-cap item: only the ORDER between body size, max_fetch_bytes and max_decompressed_bytes matters
+
+
+@cond(q=120, t=1200, encoded=_F_ENC, stubs=_F_STUBS,
+      bound="HEAD ok (honest Content-Length present|absent) or 405; body of 0..%d bytes delivered as declared; max_fetch_bytes 0..%d; max_decompressed_bytes None | 0..%d "
+            "(tighter or looser than max_fetch_bytes); Content-Encoding of the delivering GET answer one of %s, of the HEAD answer one of %s; no redirects" % (_DMAX, _DMAX, _DMAX, _ENCS, _ENCS[:_N_HEAD_ENCS]),
+      replay=_replay_fetch, signature=lambda a, c: "C31:fetch:returns-more-than-max-decompressed-bytes")
+def decoded_cap_binds_whatever_the_encoding_is_called(head_ok: bool, has_cl: bool, delivered: int, cap: int, has_mdb: bool, mdb: int,
+                                                      get_enc_i: int, head_enc_i: int) -> bool:
+    """
+    pre: 0 <= delivered <= _DMAX and 0 <= cap <= _DMAX and 0 <= mdb <= _DMAX
+    pre: 0 <= get_enc_i < len(_ENCS) and 0 <= head_enc_i < _N_HEAD_ENCS
+    post: _
+    """
+    # gzip / zstd bodies are bounded by the codec itself (codec contract, C18) and are outside this item
+    # (the body arrives in one piece: how reading is paced is single_get_never_reads_past_the_cap's subject)
+    a = _Scenario({"head_ok": head_ok, "has_cl": has_cl, "declared": delivered, "delivered": delivered, "chunk": _BMAX, "cap": cap,
+                   "head_hops": 0, "get_hops": 0, "max_redirects": 5, "bad_hop": -1, "check_text": False,
+                   "mdb": _Thunk(lambda: mdb if has_mdb else None),
+                   "get_enc": _Thunk(lambda: _ENCS[_conc(get_enc_i, 0, len(_ENCS) - 1)]),
+                   "head_enc": _Thunk(lambda: _ENCS[_conc(head_enc_i, 0, _N_HEAD_ENCS - 1)])})
+    return _fetch_verdict(a) is None
 
 
 _T_ENC = _F_ENC + [xf._validate_url, xf._raise_for_status_redacted, xf.redact_url]
